@@ -92,11 +92,11 @@ def run_property(pid, tier, seed, jobs):
         nval = int(os.environ.get("VERIF_VALIDATE_PER_CASE", 2 if tier == "quick" else 6))
         vfuts = {}
         for cname, pc in per_case.items():
-            okp = [p for p in pc["paths"] if p["status"] == "ok" and p.get("pc_model") is not None
-                   and not any(o["verdict"] == "sat" and o["expect"] == "unsat" for o in p["obligations"])]
+            okp = [p for p in pc["paths"] if p["status"] == "ok" and p.get("pc_model") is not None]
             rng.shuffle(okp)
             for p in okp[:nval]:
-                vf = ex.submit(explore.validate_task, modname, tier, cname, p["pc_model"], opts)
+                skip = [o["name"] for o in p["obligations"] if o["verdict"] != "unsat"]
+                vf = ex.submit(explore.validate_task, modname, tier, cname, p["pc_model"], opts, skip)
                 vfuts[vf] = cname
         validations = []
         for vf in cf.as_completed(list(vfuts)):
